@@ -312,17 +312,20 @@ type failure struct {
 
 func (f *failure) Error() string { return f.msg }
 
-func TestProp(t *testing.T) {
-	rapid.Check(t, func(t *rapid.T) {
-		c := gen1(t)
-		if err := h.Safely(func() error { return check(c) }); err != nil {
-			red := c
-			if f, ok := err.(*failure); ok {
-				red = f.red
-			}
-			h.Violation(t, red, "%s", err.Error())
+func prop(t *rapid.T) {
+	c := gen1(t)
+	if err := h.Safely(func() error { return check(c) }); err != nil {
+		red := c
+		if f, ok := err.(*failure); ok {
+			red = f.red
 		}
-	})
+		h.Violation(t, red, "%s", err.Error())
+	}
 }
+
+func TestProp(t *testing.T) { rapid.Check(t, prop) }
+
+// FuzzProp lets Go's coverage-guided mutator drive the structured generators (thorough tier).
+func FuzzProp(f *testing.F) { f.Fuzz(rapid.MakeFuzz(prop)) }
 
 func TestReplay(t *testing.T) { h.RunReplay(t, check) }
